@@ -26,8 +26,8 @@ META = {
     'bounds': {
         'quick': 'match_order: every pair of order kinds (number, >^k, <^k, *^k, k<=3) with all resids and numeric '
                  'orders unbounded integers; DoLinks: molecules of 3-4 two-bead residues (linear+disulfide, branched, '
-                 'ring), link lists of 3 of 10 toy links, all resids unbounded integers',
-        'thorough': 'all 10 toy links in two orders on each molecule, plus every ordered pair of neighbouring links',
+                 'ring), link lists of 1-3 of 11 toy links (incl. a star-shaped link with three distinct symbolic orders), all resids unbounded integers',
+        'thorough': 'all 11 toy links in two orders on each molecule, plus every ordered pair of neighbouring links',
     },
     'stubs': ['vermouth.processors.do_links.sign (numpy) -> (x>0)-(x<0): numpy concretises symbolic ints'],
     'assumptions': ['floats are modelled as reals by the engine (only float(int) integrality tests occur; exact for |n| < 2**53); numeric link orders |n| <= 8',
@@ -104,8 +104,15 @@ SC1 BB +BB +SC1 1 10 20 1
 [ dihedrals ]
 SC1 BB +BB +SC1 9 0 5 1 {"version": 1}
 SC1 BB +BB +SC1 9 0 7 2 {"version": 2}
+
+[ link ]
+[ angles ]
+>BB BB >>BB 2 100 10
+[ edges ]
+BB >BB
+BB >>BB
 '''
-NLINKS = 10
+NLINKS = 11
 
 _FF = None
 
@@ -491,7 +498,7 @@ def cases(tier):
         link_sets = [list(range(NLINKS)), list(range(NLINKS))[::-1]] + [[i, i + 1] for i in range(NLINKS - 1)] + [[i + 1, i] for i in range(NLINKS - 1)]
     windows = [(None, -2), (-1, -1), (0, 0), (1, 1), (2, None)]
     if tier == 'quick':
-        combos = [('lin4', [0, 1, 3]), ('lin4', [5, 6, 0]), ('branch4', [2, 4, 0]), ('branch4', [7, 8, 9]),
+        combos = [('lin4', [0, 1, 3]), ('lin4', [5, 6, 0]), ('branch4', [2, 4, 0]), ('branch4', [7, 8, 9]), ('branch4', [10, 0]), ('ring3', [10]),
                   ('lin3x', [7, 8, 9]), ('lin3x', [2, 4, 0]), ('ring3', [0, 1, 3])]
     else:
         combos = [(name, links) for name in MOLS for links in link_sets]
